@@ -68,7 +68,7 @@ PROPS = {
     },
     "C10": {
         "translators": [],
-        "count": {"quick": 600, "thorough": 6000},
+        "count": {"quick": 1500, "thorough": 15000},
         "rule": "random histories (1..5 operations, every tenth 1..30 (60 thorough)) over 70 operation forms of the six types: removal by predicate "
                 "(indexed predicate family) at every level, by index (in and out of range), by identifier / serial / name (sequential and parallel twins), "
                 "remove_empty (+par), remove_models_except / remove_all_models_except_first, join and extend at every level, add / insert, every setter "
